@@ -153,22 +153,33 @@ impl PartialDSet {
     }
 }
 
-spec fn deterministic<F: Fn(usize, usize) -> Option<usize>>(op: F) -> bool {
+// closure `ensures` is one-directional (f.ensures(args, r) ==> clause), so every condition is stated
+// with `ensures` facts only on the left of the implication
+spec fn deterministic<F: Fn(usize, usize) -> Option<usize>>(op: F, size: usize, dim: usize) -> bool {
     forall|i: usize, d: usize, r1: Option<usize>, r2: Option<usize>|
         #![trigger op.ensures((i, d), r1), op.ensures((i, d), r2)]
-        op.ensures((i, d), r1) && op.ensures((i, d), r2) ==> r1 == r2
+        i <= dim && 1 <= d <= size && op.ensures((i, d), r1) && op.ensures((i, d), r2) ==> r1 == r2
 }
 
 spec fn consistent<F: Fn(usize, usize) -> Option<usize>>(op: F, size: usize, dim: usize) -> bool {
-    forall|i: usize, d: usize, e: usize| #![trigger op.ensures((i, d), Some(e))]
-        i <= dim && 1 <= d <= size && op.ensures((i, d), Some(e)) ==> 1 <= e <= size && op.ensures((i, e), Some(d))
+    &&& forall|i: usize, d: usize, e: usize| #![trigger op.ensures((i, d), Some(e))]
+            i <= dim && 1 <= d <= size && op.ensures((i, d), Some(e)) ==> 1 <= e <= size
+    &&& forall|i: usize, d: usize, e: usize, r: Option<usize>| #![trigger op.ensures((i, d), Some(e)), op.ensures((i, e), r)]
+            i <= dim && 1 <= d <= size && op.ensures((i, d), Some(e)) && op.ensures((i, e), r) ==> r == Some(d)
+    &&& forall|i: usize, a: usize, b: usize, e: usize| #![trigger op.ensures((i, a), Some(e)), op.ensures((i, b), Some(e))]
+            i <= dim && 1 <= a <= size && 1 <= b <= size && op.ensures((i, a), Some(e)) && op.ensures((i, b), Some(e)) ==> a == b
+}
+
+// an entry of the table is justified by an actual call at that chamber or at its partner
+spec fn justified<F: Fn(usize, usize) -> Option<usize>>(op: F, i: usize, c: usize, x: usize) -> bool {
+    op.ensures((i, c), Some(x)) || op.ensures((i, x), Some(c))
 }
 
 fn build_set<F>(size: usize, dim: usize, op: F) -> (dset: PartialDSet)
     where F: Fn(usize, usize) -> Option<usize>
     requires size >= 1, dim >= 1, size * (dim + 1) <= usize::MAX, size < usize::MAX, dim < usize::MAX,
         forall|i: usize, d: usize| i <= dim && 1 <= d <= size ==> op.requires((i, d)),
-        deterministic(op), consistent(op, size, dim),
+        deterministic(op, size, dim), consistent(op, size, dim),
     ensures dset.wf(), dset.size == size, dset.dim == dim,
         forall|i: usize, d: usize| i <= dim && 1 <= d <= size ==> op.ensures((i, d), #[trigger] dset.view_op(i as int, d as int)),
 {
@@ -178,7 +189,7 @@ fn build_set<F>(size: usize, dim: usize, op: F) -> (dset: PartialDSet)
             it.seq().len() == dim + 1,
             dset.wf(), dset.size == size, dset.dim == dim, dim < usize::MAX, size < usize::MAX,
             forall|i: usize, d: usize| i <= dim && 1 <= d <= size ==> op.requires((i, d)),
-            deterministic(op), consistent(op, size, dim),
+            deterministic(op, size, dim), consistent(op, size, dim),
             forall|j: usize, d: usize| j < i && 1 <= d <= size ==> op.ensures((j, d), #[trigger] dset.view_op(j as int, d as int)),
             forall|j: int, d: int| i <= j <= dim && 1 <= d <= size ==> #[trigger] dset.sop(j, d) == 0,
     {
@@ -187,22 +198,35 @@ fn build_set<F>(size: usize, dim: usize, op: F) -> (dset: PartialDSet)
                 it2.seq().len() == size,
                 dset.wf(), dset.size == size, dset.dim == dim, dim < usize::MAX, size < usize::MAX, i <= dim,
                 forall|i: usize, d: usize| i <= dim && 1 <= d <= size ==> op.requires((i, d)),
-                deterministic(op), consistent(op, size, dim),
+                deterministic(op, size, dim), consistent(op, size, dim),
                 forall|j: usize, c: usize| j < i && 1 <= c <= size ==> op.ensures((j, c), #[trigger] dset.view_op(j as int, c as int)),
                 forall|j: int, c: int| i < j <= dim && 1 <= c <= size ==> #[trigger] dset.sop(j, c) == 0,
                 forall|c: usize| 1 <= c < d ==> op.ensures((i, c), #[trigger] dset.view_op(i as int, c as int)),
-                forall|c: usize| 1 <= c <= size && #[trigger] dset.sop(i as int, c as int) != 0 ==> op.ensures((i, c), Some(dset.sop(i as int, c as int) as usize)),
+                forall|c: usize| 1 <= c <= size && #[trigger] dset.sop(i as int, c as int) != 0 ==> justified(op, i, c, dset.sop(i as int, c as int) as usize),
         {
             let ghost old_dset = dset;
+            let ghost x0 = dset.sop(i as int, d as int);
             if let Some(di) = op(i, d) {
                 proof {
                     assert(op.ensures((i, d), Some(di)));
-                    assert(op.ensures((i, di), Some(d)));
-                    if dset.sop(i as int, d as int) != 0 {
-                        assert(op.ensures((i, d), Some(dset.sop(i as int, d as int) as usize)));
+                    assert(1 <= di <= size);
+                    if x0 != 0 {
+                        // already set: by an earlier call at d (impossible order) or at the partner x0
+                        assert(justified(op, i, d, x0 as usize));
+                        if op.ensures((i, d), Some(x0 as usize)) { } else { assert(op.ensures((i, x0 as usize), Some(d))); }
+                        assert(x0 == di);
                     }
-                    if dset.sop(i as int, di as int) != 0 {
-                        assert(op.ensures((i, di), Some(dset.sop(i as int, di as int) as usize)));
+                    let y0 = dset.sop(i as int, di as int);
+                    if y0 != 0 {
+                        assert(justified(op, i, di, y0 as usize));
+                        if op.ensures((i, di), Some(y0 as usize)) {
+                            // consistent: ensures((i,d),Some(di)) && ensures((i,di), r) ==> r == Some(d)
+                        } else {
+                            assert(op.ensures((i, y0 as usize), Some(di)));
+                            // wf: sop(i, y0) == di ; and entry (i, y0) = di is paired with d?  use involution of the table
+                            assert(dset.sop(i as int, y0) == di);
+                        }
+                        assert(y0 == d);
                     }
                 }
                 dset.set(i, d, di);
@@ -211,12 +235,20 @@ fn build_set<F>(size: usize, dim: usize, op: F) -> (dset: PartialDSet)
                         assert(dset.sop(j as int, c as int) == old_dset.sop(j as int, c as int));
                         assert(op.ensures((j, c), old_dset.view_op(j as int, c as int)));
                     }
-                    assert forall|c: usize| 1 <= c <= size && #[trigger] dset.sop(i as int, c as int) != 0 implies op.ensures((i, c), Some(dset.sop(i as int, c as int) as usize)) by {
+                    assert forall|c: usize| 1 <= c <= size && #[trigger] dset.sop(i as int, c as int) != 0 implies justified(op, i, c, dset.sop(i as int, c as int) as usize) by {
                         if c != d && c != di { assert(dset.sop(i as int, c as int) == old_dset.sop(i as int, c as int)); }
                     }
                     assert forall|c: usize| 1 <= c < d + 1 implies op.ensures((i, c), #[trigger] dset.view_op(i as int, c as int)) by {
                         if c == d { }
-                        else if c == di { }
+                        else if c == di {
+                            // c < d was processed: its actual result was view_op = Some(old entry) = Some(d) now unchanged
+                            assert(op.ensures((i, c), old_dset.view_op(i as int, c as int)));
+                            assert(old_dset.sop(i as int, c as int) == 0 || old_dset.sop(i as int, c as int) == d);
+                            if old_dset.sop(i as int, c as int) == 0 {
+                                // c returned None earlier, but d now maps to c: contradiction with consistent
+                                assert(op.ensures((i, c), None));
+                            }
+                        }
                         else {
                             assert(dset.sop(i as int, c as int) == old_dset.sop(i as int, c as int));
                             assert(op.ensures((i, c), old_dset.view_op(i as int, c as int)));
@@ -226,8 +258,9 @@ fn build_set<F>(size: usize, dim: usize, op: F) -> (dset: PartialDSet)
             } else {
                 proof {
                     assert(op.ensures((i, d), None));
-                    if dset.sop(i as int, d as int) != 0 {
-                        assert(op.ensures((i, d), Some(dset.sop(i as int, d as int) as usize)));
+                    if x0 != 0 {
+                        assert(justified(op, i, d, x0 as usize));
+                        if op.ensures((i, d), Some(x0 as usize)) { } else { assert(op.ensures((i, x0 as usize), Some(d))); }
                         assert(false);
                     }
                     assert forall|c: usize| 1 <= c < d + 1 implies op.ensures((i, c), #[trigger] dset.view_op(i as int, c as int)) by { }
